@@ -8,17 +8,107 @@ pub struct File { _p: () }
 #[verifier::external_body]
 pub struct IoErr { _p: () }
 impl File {
+    // the file's contents as a read would see them (a hole reads as zeros)
+    pub uninterp spec fn bytes(&self) -> Seq<u8>;
     // file.metadata()?.len()
     #[verifier::external_body]
-    pub fn len_of(&self) -> Result<u64> { unimplemented!() }
+    pub fn len_of(&self) -> (r: Result<u64>)
+        ensures r matches Ok(n) ==> n as int == self.bytes().len(),
+    {
+        unimplemented!()
+    }
     #[verifier::external_body]
     pub fn set_len_mapped(&self, size: u64) -> Result<()> { unimplemented!() }
 }
 // the OpenOptions block of open_device (rule R-open): read + write + create, never truncate; O_DIRECT when the platform accepts it
+// what is stored under a path name right now
+pub uninterp spec fn path_bytes(path: Seq<char>) -> Seq<u8>;
 #[verifier::external_body]
-pub fn open_device_file(path: &String) -> Result<(File, bool)> { unimplemented!() }
+pub fn open_device_file(path: &String) -> (r: Result<(File, bool)>)
+    ensures r matches Ok(p) ==> p.0.bytes() == path_bytes(path@),
+{
+    unimplemented!()
+}
+pub open spec fn all_zero(s: Seq<u8>) -> bool { forall|i: int| 0 <= i < s.len() ==> s[i] == 0 }
+
+// a second, read-only descriptor on the same path, read front to back (OpenOptions::new().read(true).open(path))
 #[verifier::external_body]
-pub fn file_is_all_zero(file: &File, path: &String, size: u64) -> Result<bool> { unimplemented!() }
+pub struct FileReader { _p: () }
+impl FileReader {
+    pub uninterp spec fn bytes(&self) -> Seq<u8>;
+    pub uninterp spec fn pos(&self) -> nat;
+    // contents.read_exact(&mut buffer[..n]).map_err(FeoxError::IoError)?   (rule R-fs): the next n bytes, or an error (EOF included)
+    #[verifier::external_body]
+    pub fn read_exact_into(&mut self, buffer: &mut Vec<u8>, n: usize) -> (r: Result<()>)
+        requires n <= old(buffer)@.len(),
+        ensures
+            final(self).bytes() == old(self).bytes(),
+            final(buffer)@.len() == old(buffer)@.len(),
+            r is Ok ==> (old(self).pos() + n <= old(self).bytes().len() && final(self).pos() == old(self).pos() + n
+                && (forall|k: int| 0 <= k < n ==> (#[trigger] final(buffer)@[k]) == old(self).bytes()[old(self).pos() + k])
+                && (forall|i: int| old(self).pos() <= i < old(self).pos() + n ==> (#[trigger] old(self).bytes()[i]) == final(buffer)@[i - old(self).pos()])),
+    {
+        unimplemented!()
+    }
+}
+#[verifier::external_body]
+pub fn open_for_reading(path: &String) -> (r: Result<FileReader>)
+    ensures r matches Ok(f) ==> (f.bytes() == path_bytes(path@) && f.pos() == 0),
+{
+    unimplemented!()
+}
+// buffer[..n].iter().any(|byte| *byte != 0)   (rule R-any)
+pub fn any_nonzero(buffer: &Vec<u8>, n: usize) -> (r: bool)
+    requires n <= buffer@.len(),
+    ensures
+        !r ==> forall|k: int| 0 <= k < n ==> (#[trigger] buffer@[k]) == 0,
+        r ==> exists|k: int| 0 <= k < n && (#[trigger] buffer@[k]) != 0,
+{
+    let mut i: usize = 0;
+    while i < n
+        invariant i <= n, n <= buffer@.len(), forall|k: int| 0 <= k < i ==> (#[trigger] buffer@[k]) == 0,
+        decreases n - i,
+    {
+        if buffer[i] != 0 {
+            return true;
+        }
+        i = i + 1;
+    }
+    false
+}
+pub fn min_u64(a: u64, b: u64) -> (r: u64)
+    ensures r == (if a <= b { a } else { b }),
+{
+    if a <= b { a } else { b }
+}
+#[verifier::external_body]
+pub fn zeroed_vec(n: usize) -> (v: Vec<u8>)
+    ensures v@.len() == n,
+{
+    vec![0; n]
+}
+// lseek(fd, from, SEEK_DATA) and the errno it leaves (kernel semantics, A30): a negative result with ENXIO means there is
+// no data at or after `from` - with from == 0 the whole file is a hole and reads as zeros
+pub const LIBC_ENXIO: i32 = 6;
+pub const LIBC_EINVAL: i32 = 22;
+pub uninterp spec fn last_errno() -> Option<i32>;
+#[verifier::external_body]
+pub fn lseek_data(file: &File, from: i64) -> (offset: i64)
+    ensures (offset < 0 && from == 0 && last_errno() == Some(LIBC_ENXIO)) ==> all_zero(file.bytes()),
+{
+    unimplemented!()
+}
+impl IoErrorOpaque {
+    #[verifier::external_body]
+    pub fn raw_os_error(&self) -> (r: Option<i32>)
+        ensures r == last_errno(),
+    {
+        unimplemented!()
+    }
+}
+// std::io::Error::last_os_error()
+#[verifier::external_body]
+pub fn last_os_error() -> IoErrorOpaque { unimplemented!() }
 
 // sizes the allocator accepts (unit free_space: initialize requires at least one data block, both require <= MAX_DEVICE_SIZE)
 pub open spec fn size_initializable(size: u64) -> bool { 17 * 4096 <= size <= 0x100_0000_0000 }
